@@ -153,6 +153,9 @@ LeafWhys(c, lf) ==
     IF res.kind = "ok" /\ ~valid THEN "P:C02:a-string-outside-the-recipe-was-returned" ELSE "ok",
     IF res.kind = "ok" /\ res.str # Concat(res.toks, 1) THEN "P:C05:String()-is-not-the-concatenation-of-token-values" ELSE "ok",
     IF res.kind = "ok" /\ ~SameFloat(res.ent, c.ent) THEN "P:C06:Password.Entropy-differs-from-recipe-Entropy()" ELSE "ok",
+    \* the choices of this very run have probability 1/pp (pp = product of the bounds of all its draws) and determine the password
+    IF res.kind = "ok" /\ lf.unann = 0 /\ lf.left = 0 /\ res.ent.k = "fin" /\ lf.pp # <<>> /\ ~EntropyNotAbove(res.ent, lf.pp, 2)
+      THEN "P:C06:the-choices-that-produced-this-password-are-likelier-than-2^-Entropy" ELSE "ok",
     IF lf.det = 0 THEN "P:C09:same-choices-from-the-source-gave-a-different-result" ELSE "ok",
     IF res.kind = "ok" /\ lf.reads = 0 /\ info.A >= 2 THEN "P:C09:password-produced-without-reading-the-random-source" ELSE "ok",   \* a one-character alphabet is no choice
     IF r.len >= 1 /\ lf.nd > c.maxTrials * r.len THEN "P:C13:more-attempts-than-MaxTrials" ELSE "ok",
